@@ -168,9 +168,54 @@ def run_byte_shard(sh, res):
     res.sample({'bytes': data.hex(), 'text': sample, 'compositions': 1 << (len(data) - 1)})
 
 
+def run_long_shard(sh, res):
+    """scale dimension: physical lines far longer than any chunk (and than the interpreter's recursion limit in reads): the number of read() calls
+    a single line spans must not matter either"""
+    rc, eng = tree.csvmod(), tree.engine()
+    L = sh['length']
+    body = ('ab,"c d",' * (L // 9 + 1))[:L]
+    texts = [body, body + '\n' + 'x,y', 'p,q\r\n' + body + '\r\n', '"' + body.replace('"', 'z') + '\n' + 'tail",w\n']
+    for text in texts:
+        for policy, dlm in (('quoted', ','), ('quoted_rfc', ','), ('simple', ',')):
+            base = read_all(rc, eng, PieceText([text]), None, dlm, policy, False, None, 1 << 20)
+            res.evaluations += 1
+            for cs in sh['chunk_sizes']:
+                st = PieceText([text])
+                got = read_all(rc, eng, st, None, dlm, policy, False, None, cs)
+                res.evaluations += 1
+                res.traces += 1
+                res.transitions += st.calls
+                res.states += st.calls
+                res.nontrivial += 1
+                res.feat('long_line_executions')
+                if got != base:
+                    res.violation('chunk-size-dependence-long-line', {'kind': 'long', 'length': len(text), 'policy': policy, 'chunk_size': cs, 'head': text[:30]},
+                                  {'n_records': len(base[1] or []), 'error': base[3]}, {'n_records': len(got[1] or []), 'error': got[3]})
+            for piece in sh['piece_sizes']:
+                pieces = [text[i:i + piece] for i in range(0, len(text), piece)]
+                st = PieceText(pieces)
+                got = read_all(rc, eng, st, None, dlm, policy, False, None, 1024)
+                res.evaluations += 1
+                res.transitions += st.calls
+                if got != base:
+                    res.violation('chunk-dependence-long-line', {'kind': 'long', 'length': len(text), 'policy': policy, 'piece_size': piece, 'head': text[:30]},
+                                  {'n_records': len(base[1] or []), 'error': base[3]}, {'n_records': len(got[1] or []), 'error': got[3]})
+            # byte level through the reader's own TextIOWrapper
+            data = text.encode('utf-8')
+            b0 = read_all(rc, eng, io.BytesIO(data), 'utf-8', dlm, policy, False, None, 1 << 20)
+            for cs in sh['chunk_sizes']:
+                got = read_all(rc, eng, io.BytesIO(data), 'utf-8', dlm, policy, False, None, cs)
+                res.evaluations += 1
+                if got != b0:
+                    res.violation('chunk-size-dependence-long-line', {'kind': 'long-bytes', 'length': len(text), 'policy': policy, 'chunk_size': cs}, {'n_records': len(b0[1] or []), 'error': b0[3]}, {'n_records': len(got[1] or []), 'error': got[3]})
+    res.sample({'long_line_length': L, 'chunk_sizes': sh['chunk_sizes']})
+
+
 def run_shard(sh):
     res = core.Result()
-    if sh['kind'] == 'text':
+    if sh['kind'] == 'long':
+        run_long_shard(sh, res)
+    elif sh['kind'] == 'text':
         run_text_shard(sh, res)
     else:
         run_byte_shard(sh, res)
@@ -196,6 +241,8 @@ def build(tier, seed):
                     shards.append({'kind': 'text', 'policy': policy, 'dlm': dlm, 'syms': s7, 'first': first + second, 'minlen': 7, 'maxlen': 7})
     for s in BYTE_SAMPLES:
         shards.append({'kind': 'bytes', 'sample': s, 'chunk_sizes': [1, 2, 1024] if tier == 'thorough' else [1, 1024]})
+    for L in ([1100, 2500, 70000] if tier == 'thorough' else [1100, 2500]):
+        shards.append({'kind': 'long', 'length': L, 'chunk_sizes': [1, 2, 7, 64, 1023], 'piece_sizes': [1, 3, 1000]})
     return shards
 
 
@@ -203,7 +250,7 @@ def main(tier, seed):
     t0 = time.time()
     shards = build(tier, seed)
     # biggest first
-    shards.sort(key=lambda s: -(s.get('maxlen', 9)))
+    shards.sort(key=lambda s: -(s.get('maxlen', 9) if s['kind'] != 'long' else 99))
     res = core.run_shards('vf.checks.c12', shards)
     return core.finish(PID, tier, seed, res, t0,
         rule='all texts up to the bound over {o, quote, comma, LF, CR, #, space} x all 2^(n-1) compositions of the delivery x chunk sizes 1..n+1 x 5 policies x comment '
@@ -213,7 +260,7 @@ def main(tier, seed):
                      'under an encoding the reader wraps the raw stream in its own TextIOWrapper (universal newlines), so compositions exercise the incremental decoder and newline translation',
                      'field-count warning numbers are compared for header-less input only'],
         extra={'bounds': {'text_maxlen': 6 if tier == 'thorough' else 5, 'len7_slice': tier == 'thorough', 'byte_samples': BYTE_SAMPLES}},
-        min_features={'texts_with_crlf': 100, 'texts_ending_cr': 100, 'rfc_multiline_records': 50, 'bom_cases': 4, 'byte_level_executions': 1000})
+        min_features={'texts_with_crlf': 100, 'texts_ending_cr': 100, 'rfc_multiline_records': 50, 'bom_cases': 4, 'byte_level_executions': 1000, 'long_line_executions': 50})
 
 
 def replay(rep):
